@@ -157,11 +157,18 @@ def _load1(ctx, cfg, custom):
     file["user"] = "metadata"
     calls = []
 
+    extra_kwargs = []
+
     def fake_load(loc, map_location=None, **k):
         calls.append((loc, map_location))
+        extra_kwargs.append(dict(k))
         return file
     with mock.patch.object(torch, "load", fake_load):
         r = dst.load("LOCATION")
+    # what is loaded must not stay backed by the file: the file may be rewritten (the next checkpoint of a run, another
+    # model saved under the same name) while the loaded state lives on
+    ctx.holds("load/the file is read into memory, not memory-mapped (the loaded state does not depend on the file afterwards)[%s]" % kind,
+              not any(k.get("mmap") for k in extra_kwargs), str(extra_kwargs))
     ctx.holds("load/reads the given location once onto the state's device[%s]" % kind, r is None and calls == [("LOCATION", dst.device)], str(calls))
     for n in src.networks:
         a, b = getattr(src, n), getattr(dst, n)
